@@ -114,10 +114,14 @@ theorem resolveSize_lit : ∀ (src : Val) (k : Int), litSize src = some k → Re
           split <;> simp_all
         cases src <;> simp [isRegister] at hr <;>
           simp [Resolve.resolveSize, hstart, Resolve.stepOr1, Resolve.resolveInt, Resolve.resolveAV, Resolve.avFuel,
-            rangeLen_eq hs, bind, Except.bind, pure, Except.pure, h]
+            rangeLen_eq hs, bind, Except.bind, pure, Except.pure, h, hs]
   | .int _, _, h | .flt _, _, h | .const _ _, _, h | .param _ _, _, h | .qubit _ _ _, _, h | .none, _, h
   | .str _, _, h => by simp [litSize] at h
 
+
+theorem regSize_lit {src : Val} {k : Int} (h : litSize src = some k) : regSize src = .ok (.int k) := by
+  unfold regSize
+  rw [resolveSize_lit src k h]
 
 theorem mkRegister_ok {n : String} {size v : Val} (h : mkRegister n size = .ok v) : ValOK v := by
   unfold mkRegister at h
@@ -153,7 +157,7 @@ theorem qubitCheck_lit {src : Val} {i k : Int} (h : qubitCheck src (.int i) = .o
   have hnone : (Val.int i == Val.none || src == Val.none) = false := by
     cases src <;> simp [isRegister] at hreg <;> rfl
   unfold qubitCheck at h
-  simp only [hnone, hav, Bool.false_eq_true, if_false, bind, Except.bind, resolveSize_lit src k hk,
+  simp only [hnone, hav, Bool.false_eq_true, if_false, bind, Except.bind, regSize_lit hk,
     pyIntOfSize, pure, Except.pure, pyLt_int, pyLe_int] at h
   by_cases hb : (decide (i < 0) || !decide (i < k)) = true
   · simp [hb, throw_eq] at h
@@ -183,11 +187,11 @@ theorem sliceCheck_lit {src : Val} {ia ib is k : Int} (h : sliceCheck src (.int 
     cases src <;> simp [isRegister] at hreg <;> rfl
   unfold sliceCheck at h
   by_cases hs : is = 0
-  · subst hs; simp [hav, pyEq0, Val.toNum?, Num.veq, throw_eq, bind, Except.bind] at h
+  · subst hs; simp [hav, isIntLit, pyEq0, Val.toNum?, Num.veq, throw_eq, bind, Except.bind] at h
   have hz : pyEq0 (.int is) = false := by simp [pyEq0, Val.toNum?, Num.veq, hs]
   have hsz : ((Val.int k == Val.none) || isAV (.int k)) = false := rfl
-  simp only [hav, hz, hsz, Bool.false_eq_true, if_false, bind, Except.bind, pyLt_int, pyLe_int, pure, Except.pure,
-    resolveSize_lit src k hk, startOr0_int, Resolve.stepOr1, pyRangeArg, rangeLen_eq hs, decide_eq_true_eq] at h
+  simp only [hav, hz, hsz, isIntLit, Bool.and_self, Bool.not_true, Bool.false_eq_true, if_false, bind, Except.bind,
+    pyLt_int, pyLe_int, pure, Except.pure, regSize_lit hk, startOr0_int, Resolve.stepOr1, pyRangeArg, rangeLen_eq hs, decide_eq_true_eq] at h
   by_cases ha : ia < 0
   · simp [ha, throw_eq] at h
   simp only [ha, if_false] at h
@@ -494,7 +498,7 @@ theorem buildGate_ok {cfg : Config} {mode : KeyMode} {ctx : Ctx} {f : Nat} {args
       cases h1
       exact ⟨hfresh p hb, hm⟩
     · simp only [hoff, if_false] at h
-      cases hfind : Memo.find st.memo (mkKey mode ctx name gargs) with
+      cases hfind : Memo.find mode.numByValue st.memo (mkKey mode ctx name gargs) with
       | some g =>
         simp only [hfind, pure, Except.pure] at h
         cases h
